@@ -33,8 +33,28 @@ def DomSem (I : Nat → Prop) (γ : Subst) (st : State) : Prop :=
 def Sem (I : Nat → Prop) (γ : Subst) (st : State) : Prop :=
   Ext st.σ γ ∧ (∀ p ∈ st.store, CstSem γ p.2) ∧ DomSem I γ st
 
-/-- only bound variables are ignored -/
-def IOK (I : Nat → Prop) (st : State) : Prop := ∀ y, I y → st.σ y ≠ .var y
+/-- nothing is ignored.  (The set `I` is vestigial: an earlier version of the proof ignored the entries of
+    the variables a unification had just bound; `exclude_from_domain` reads such an entry, so every stored
+    entry now counts — see `Keeps.shrink` and `extStep_sem`.) -/
+def IOK (I : Nat → Prop) (_st : State) : Prop := ∀ y, ¬ I y
+
+/-- nothing is ignored at top level -/
+def NoI : Nat → Prop := fun _ => False
+
+/-- the two modes the theorems are stated in.  STRICT (`allow = False`): no `distinctfd` constraint is ever
+    posted; then no panic site of the state machine is reachable.  LAX (`allow = True`): `distinctfd` is
+    allowed; its three panic sites (an element that is bound to something that is not an integer) are then
+    reachable, but only from states that describe NO valuation — the panic stands for a failure. -/
+class Mode where
+  allow : Prop
+
+/-- no `distinctfd` anywhere: no panic site is reachable -/
+@[reducible] def Mode.strict : Mode := ⟨False⟩
+/-- `distinctfd` allowed -/
+@[reducible] def Mode.lax : Mode := ⟨True⟩
+
+/-- the panic sites of `distinctfd` -/
+def DP (s : String) : Prop := s = "distinctfd-const" ∨ s = "distinctfd-term" ∨ s = "distinctfd-value"
 
 /-- `distinctfd` and its worker constraint (outside the fragment the global theorems cover) -/
 def Cst.isDistinct : Cst → Bool
@@ -42,13 +62,28 @@ def Cst.isDistinct : Cst → Bool
   | .distinctfd2 .. => true
   | _ => false
 
+/-- what a stored constraint must satisfy: `distinctfd` only in the lax mode and on a PROPER list term (the
+    elements of an open-tailed list are not known when the constraint is posted; `iter()` would take the
+    tail variable for an element); the constants its worker has collected are strictly sorted (they are
+    kept so by binary insertion) -/
+def CstOK [Mode] : Cst → Prop
+  | .distinctfd u => Mode.allow ∧ ∃ l : List Term, u = Term.ofList l
+  | .distinctfd2 _ _ n => Mode.allow ∧ FD.StrictSorted n
+  | _ => True
+
+theorem CstOK.of_not_distinct [Mode] {c : Cst} (h : c.isDistinct = false) : CstOK c := by
+  cases c <;> first | trivial | cases h
+
+theorem CstOK.strict {c : Cst} (h : @CstOK Mode.strict c) : c.isDistinct = false := by
+  cases c <;> first | rfl | exact h.1.elim
+
 /-- well-formed state (the part the semantics needs): solved substitution, one well-formed domain per
-    variable, no `distinctfd` constraint in the store -/
-structure WFS (st : State) : Prop where
+    variable, stored constraints admissible in the mode -/
+structure WFS [Mode] (st : State) : Prop where
   solved : Solved st.σ
   dnodup : (st.dstore.map (·.1)).Nodup
   dwf : ∀ p ∈ st.dstore, FD.WF p.2
-  nodist : ∀ p ∈ st.store, p.2.isDistinct = false
+  nodist : ∀ p ∈ st.store, CstOK p.2
 
 /-- what propagation may do to the substitution and the domain store: the substitution is extended,
     an unbound variable stays unbound or becomes a NUMBER, and a variable that stays unbound keeps
@@ -63,14 +98,19 @@ structure Keeps (st st' : State) : Prop where
   keys : ∀ y, (st'.dget y).isSome → (st.dget y).isSome ∨ st.σ y = .var y
   /-- entries of bound variables are not touched -/
   bound : ∀ y, st.σ y ≠ .var y → st'.dget y = st.dget y
+  /-- the domain of an unbound variable only shrinks; when its entry goes away the variable has been
+      bound to one of the domain's numbers -/
+  shrink : ∀ y d, st.σ y = .var y → st.dget y = some d →
+    (∃ d', st'.dget y = some d' ∧ ∀ n, d'.Mem n → d.Mem n) ∨ (∃ n, st'.σ y = Term.num n ∧ d.Mem n)
 
 /-- `r` is the outcome of adding the condition `S` to the state `st`: on success the new state
     describes exactly the valuations of `st` that satisfy `S` (nothing lost, nothing invented); failure
-    means no valuation of `st` satisfies `S`; a PANIC is excluded.  (Fuel exhaustion claims nothing.) -/
-def Ref (I : Nat → Prop) (S : Subst → Prop) (st : State) : Res State → Prop
+    means no valuation of `st` satisfies `S`; a PANIC is possible only in the lax mode, only at a panic
+    site of `distinctfd`, and only when no valuation of `st` satisfies `S`.  (Fuel exhaustion claims nothing.) -/
+def Ref [Mode] (I : Nat → Prop) (S : Subst → Prop) (st : State) : Res State → Prop
   | .ok st' => WFS st' ∧ Keeps st st' ∧ ∀ γ, Sem I γ st' ↔ (Sem I γ st ∧ S γ)
   | .fail => ∀ γ, ¬ (Sem I γ st ∧ S γ)
   | .fuel => True
-  | .panic _ => False
+  | .panic s => Mode.allow ∧ DP s ∧ ∀ γ, ¬ (Sem I γ st ∧ S γ)
 
 end Pv
